@@ -2147,8 +2147,12 @@ impl Fs {
     /// Write to a file (adds to pending queue).
     pub fn write_file(&mut self, path: &Path, offset: u64, data: &[u8], time: Duration) {
         if !data.is_empty() {
+            // Key the op by the name the inode has now (a file with a pending
+            // rename still lives under its old name): that is the key
+            // `file_len` / `read_file` look for.
+            let path = self.resolve_content_path(path);
             self.pending.push(PendingOp::Write {
-                path: path.to_path_buf(),
+                path,
                 offset,
                 data: data.to_vec(),
                 time,
@@ -2165,11 +2169,9 @@ impl Fs {
             cache.invalidate_file(path);
         }
 
-        self.pending.push(PendingOp::SetLen {
-            path: path.to_path_buf(),
-            len,
-            time,
-        });
+        // Keyed like writes: by the name the inode has now.
+        let path = self.resolve_content_path(path);
+        self.pending.push(PendingOp::SetLen { path, len, time });
     }
 
     /// Create a file (adds to pending queue).
